@@ -27,6 +27,10 @@ SHAPES = {
     "v-w?u": (3, 0, lambda v, k, eq: (v[0] - v[1] == v[2]) if eq else (v[0] - v[1] != v[2])),
     "kv+w?u": (3, 1, lambda v, k, eq: (k[0] * v[0] + v[1] == v[2]) if eq else (k[0] * v[0] + v[1] != v[2])),
     "v+w-k?u": (3, 1, lambda v, k, eq: (v[0] + v[1] - k[0] == v[2]) if eq else (v[0] + v[1] - k[0] != v[2])),
+    "kv+w+u?k": (3, 2, lambda v, k, eq: (k[0] * v[0] + v[1] + v[2] == k[1]) if eq else (k[0] * v[0] + v[1] + v[2] != k[1])),
+    "v+w?v+k": (2, 1, lambda v, k, eq: (v[0] + v[1] == v[0] + k[0]) if eq else (v[0] + v[1] != v[0] + k[0])),
+    "vk?k": (1, 2, lambda v, k, eq: (v[0] * k[0] == k[1]) if eq else (v[0] * k[0] != k[1])),
+    "v-v+w?k": (2, 1, lambda v, k, eq: (v[0] - v[0] + v[1] == k[0]) if eq else (v[0] - v[0] + v[1] != k[0])),
     "v-w?u-v": (3, 0, lambda v, k, eq: (v[0] - v[1] == v[2] - v[0]) if eq else (v[0] - v[1] != v[2] - v[0])),
 }
 
@@ -181,7 +185,7 @@ def pair_programs(rng, n):
     progs = []
     shapes = list(SHAPES)
     for _ in range(n):
-        doms = [rng.choice(DOMS) for _ in range(3)]
+        doms = [rng.choice(DOMS + [(0, 5), (0, 4)]) for _ in range(3)]
         s1 = rng.choice(shapes)
         nv, nk, _f = SHAPES[s1]
         c1 = ("lin", s1, rng.sample(range(3), nv), [rng.choice([-1, 0, 1, 2, 3]) for _ in range(nk)], rng.random() < 0.6)
